@@ -3,6 +3,7 @@
 package zzverif
 
 import (
+	"encoding/json"
 	"fmt"
 	"strings"
 
@@ -51,6 +52,14 @@ func totalityChecks(e *expr.Expression, inputHasMarker bool) {
 		rtObserveInt("nparams", len(params))
 	}
 	rtAssert("inline-ok-implies-param-ok", err != nil || perr == nil)
+	// JSON encoding of what Parse returned (through the engine's stand-in for encoding/json)
+	js, jerr := json.Marshal(e)
+	if jerr == nil {
+		rtAssert("json-no-marker", inputHasMarker || !strings.Contains(string(js), "%!"))
+		rtReach("json-encoded")
+	} else {
+		rtReach("json-error")
+	}
 }
 
 // H_ParseBytes (C01, C10): N arbitrary bytes through Parse and every consumer of the result.
